@@ -235,6 +235,8 @@ VM_EXCEPTIONS = {
     "return_reg": "points at a Janet in a JanetTryState on the C stack, not at collectable memory",
     "roots": "the root array itself; its elements are marked one by one",
     "cache": "the symbol cache is weak by design: dead symbols remove themselves (janet_symbol_deinit)",
+    "streams": "poll back end only: weak index from pollfd position to stream; janet_stream_close_impl (also run by the stream's "
+               "gc hook before the object is freed) swaps the entry out, so no dead stream stays listed",
 }
 
 
@@ -413,7 +415,8 @@ def _nilfill_rule(chk, prog):
                 body = n.kids[3]
                 stores = [x for x in body.walk() if x.k == "asg"]
                 if len(stores) == 1 and stores[0].kids[0].k == "sub" and is_mem(strip_casts(stores[0].kids[0].kids[0]), "data", "JanetFiber") \
-                        and "janet_wrap_nil" in strip_casts(stores[0].kids[1]).macro_names():
+                        and ("janet_wrap_nil" in strip_casts(stores[0].kids[1]).macro_names()
+                             or (strip_casts(stores[0].kids[1]).k == "call" and strip_casts(stores[0].kids[1]).callee == "janet_wrap_nil")):
                     lo = n.kids[0]
                     lo_txt = ""
                     for x in lo.walk():
@@ -525,6 +528,59 @@ def _drain_rule(chk, prog):
 _run_prev = run
 
 
+ROOT_ENUMERATORS = ("janet_ev_mark",)
+
+
+def _markguard_rule(chk, prog):
+    """The event loop's queues (spawned tasks, timers) hold raw fiber pointers that the loop dereferences later;
+    janet_ev_mark is what keeps those fibers alive.  Every queued element must therefore be marked - a mark that
+    is skipped depending on the element's own contents (its generation, a flag) lets the collector free a fiber
+    the queue still points to.  Allowed guards: loop bounds over the queue's indices and a NULL test of the very
+    pointer being marked."""
+    rule = "C01-MARKGUARD"
+    chk.rule(rule, "root enumerators mark every queued element: no mark is conditional on the element's own contents")
+    n = 0
+    for name in ROOT_ENUMERATORS:
+        fn = next((f for f in prog.all_funcs() if f.name == name), None)
+        if fn is None:
+            raise AnalysisBroken("root enumerator %s not found" % name)
+        chk.analysed(fn)
+        IN, T = flow.condition_facts(fn)
+        marks = [x for x in fn.nodes if x.k == "call" and x.callee in ("janet_mark", "janet_mark_table", "janet_mark_abstract")]
+        for x, S in flow.states_at(fn, IN, T):
+            if x not in marks:
+                continue
+            n += 1
+            chk.instance(rule)
+            target = None
+            for a in x.args[0].walk():
+                if a.k in ("mem", "sub", "ref") and (a.t or "").rstrip().endswith("*") and "(" not in (a.t or ""):
+                    target = a.text().replace(" ", "")
+                    break
+            bad = None
+            for ps in S:
+                for (op, l, r, toks, ln, rn) in ps:
+                    elementish = False
+                    for side in (ln, rn):
+                        if side is None:
+                            continue
+                        for y in side.walk():
+                            if y.k == "sub" or (y.k == "ref" and "*" in (y.t or "") and y.d.get("d") in ("var", "parm")):
+                                elementish = True
+                    if not elementish:
+                        continue
+                    nulltest = (rn is None or rn.v == 0) and op in ("!=", "==") and target is not None and l.replace(" ", "") == target
+                    if not nulltest:
+                        bad = "%s %s %s" % (l, op, r or "0")
+            if bad:
+                chk.violation(rule, fn.tu.name, fn.name, x.args[0].text()[:50].replace(" ", ""), x.loc,
+                              "`%s` is reached only when `%s` holds - a condition on the queued element itself: an element that fails it "
+                              "stays in the queue unmarked, its fiber can be freed and the event loop later dereferences it" % (x.text()[:60], bad))
+            else:
+                chk.ok(rule, "%s: %s for every queued element" % (fn.name, x.text()[:50]))
+    chk.floor(rule, 6, n)
+
+
 def run(chk):   # noqa
     prog = Program.load("default")
     S = Summaries(prog)
@@ -535,3 +591,4 @@ def run(chk):   # noqa
     _safepoint_rule(chk, prog, S)
     _nilfill_rule(chk, prog)
     _drain_rule(chk, prog)
+    _markguard_rule(chk, prog)
